@@ -435,3 +435,34 @@ impl Drop for ClientOnly {
         let _ = std::fs::remove_dir_all(&self.dir);
     }
 }
+
+/// One process started from an arbitrary configuration document (no readiness expectations).
+pub struct RawProc {
+    pub dir: PathBuf,
+    pub proc: Proc,
+}
+
+impl RawProc {
+    pub fn start(server: bool, doc: &Value, workers: u8) -> Result<RawProc, String> {
+        let dir = work_dir();
+        let name = if server { "server" } else { "client" };
+        let p = dir.join(format!("{}.json", name));
+        std::fs::write(&p, serde_json::to_string_pretty(doc).unwrap()).map_err(|e| e.to_string())?;
+        let bin = if server { server_bin() } else { client_bin() };
+        let args: Vec<&str> = if server { vec![p.to_str().unwrap(), "info"] } else { vec![p.to_str().unwrap()] };
+        let proc = Proc::spawn(&bin, &args, &dir, name, workers, None)?;
+        Ok(RawProc { dir, proc })
+    }
+    /// (listens on TCP `port`, holds UDP `port`)
+    pub fn sockets(&self, port: u16) -> (bool, bool) {
+        let s = procfs::socks_of(self.proc.pid);
+        (s.iter().any(|x| x.proto == "tcp" && x.local_port == port && x.state == procfs::TCP_LISTEN), s.iter().any(|x| x.proto == "udp" && x.local_port == port))
+    }
+}
+
+impl Drop for RawProc {
+    fn drop(&mut self) {
+        self.proc.kill();
+        let _ = std::fs::remove_dir_all(&self.dir);
+    }
+}
